@@ -301,6 +301,18 @@ pub fn overridden(cfg: &EHistCfg) -> EHistCfg {
     }
     c
 }
+pub fn cap_override_i(repl: bool, c: CapSpec, i: usize, salt: usize) -> CapSpec {
+    if ov().cap.as_deref() == Some("mixq") {
+        let m = if repl { 14 } else { 4 };
+        if (i + salt) % 2 == 0 {
+            CapSpec::Fixed((salt / 2 + i / 2) % (m + 2))
+        } else {
+            CapSpec::Query(0)
+        }
+    } else {
+        cap_override(repl, c)
+    }
+}
 pub fn cap_override(repl: bool, c: CapSpec) -> CapSpec {
     let m = if repl { 14 } else { 4 };
     match ov().cap.as_deref() {
@@ -319,7 +331,8 @@ pub fn run_chunked(sh: &mut Shards, cfg: &EHistCfg, items: &[u32], chunk_items: 
     let cfg = &overridden(cfg);
     let repl = cfg.repl;
     let caps0 = caps;
-    let mut caps = |i: usize| cap_override(repl, caps0(i));
+    let salt = rot();
+    let mut caps = |i: usize| cap_override_i(repl, caps0(i), i, salt);
     let text = prepare(items, cfg.source);
     let mut h = EHist::begin(sh, cfg, true);
     let total = *text.bounds.last().unwrap();
